@@ -46,19 +46,56 @@ fn graph(r: &mut Rd) -> GCase {
     GCase { n, prio: (0..n).map(|i| ((pb >> (i % 8)) & 1) as i32 + (i as i32 % 2)).collect(), edges }
 }
 
-fn fail_if(st: &Stats, what: &str) {
+fn fail_if(_st: &Stats, _what: &str) {}
+
+/// the property the campaign is restricted to (env GV_OPS_PROP), if any
+pub fn prop_filter() -> Option<String> {
+    static P: std::sync::OnceLock<Option<String>> = std::sync::OnceLock::new();
+    P.get_or_init(|| std::env::var("GV_OPS_PROP").ok().filter(|s| !s.is_empty())).clone()
+}
+
+/// fuzz entry point: a finding panics (= libFuzzer crash)
+pub fn check_bytes(data: &[u8]) {
+    let mut st = Stats::new();
+    let filter = prop_filter();
+    run_bytes(filter.as_deref(), data, &mut st);
     if let Some((sig, (f, _))) = st.findings.iter().next() {
-        panic!("{} ORACLE {} :: {} :: {}", f.property, what, sig, crate::ctx::trunc(&f.detail, 400));
+        panic!("{} ORACLE :: {} :: {}", f.property, sig, crate::ctx::trunc(&f.detail, 400));
     }
 }
 
-pub fn check_bytes(data: &[u8]) {
+/// branch of the decoder that serves a property
+fn branch_of(prop: &str) -> u8 {
+    match prop {
+        "C01" | "C02" | "C03" => 0,
+        "C18" => 1,
+        "C19" => 2,
+        "C20" => 3,
+        _ => 4,
+    }
+}
+
+/// decodes `data` into a structured case and runs the oracles of `filter` (or of every property) on it
+pub fn run_bytes(filter: Option<&str>, data: &[u8], st: &mut Stats) {
     if data.len() < 2 {
         return;
     }
     let mut r = Rd { d: data, i: 0 };
-    let mut st = Stats::new();
-    match r.u8() % 5 {
+    let mut st_local = Stats::new();
+    let st_ref = &mut st_local;
+    let first = r.u8();
+    let branch = match filter {
+        Some(p) => branch_of(p),
+        None => first % 5,
+    };
+    run_branch(filter, branch, &mut r, data, st_ref);
+    st.merge(st_local);
+}
+
+fn run_branch(filter: Option<&str>, branch: u8, r: &mut Rd, data: &[u8], st: &mut Stats) {
+    let mut r = Rd { d: r.d, i: r.i };
+    let st = &mut *st;
+    match branch {
         0 => {
             let n = 2 + (r.u8() % 6) as usize;
             let mut ops = vec![];
@@ -78,9 +115,11 @@ pub fn check_bytes(data: &[u8]) {
             }
             let c = HistCase { n, ops };
             for w in [Which::C03, Which::C01, Which::C02] {
-                hist::run_all(&c, w, &mut st, false, None);
+                if filter.map_or(true, |f| f == w.id()) {
+                    hist::run_all(&c, w, st, false, None);
+                }
             }
-            fail_if(&st, "history");
+            fail_if(st, "history");
         }
         1 => {
             let n = 1 + (r.u8() % 6) as usize;
@@ -110,8 +149,8 @@ pub fn check_bytes(data: &[u8]) {
                     _ => COp::Isolate(k),
                 });
             }
-            contmap::run_all(&CCase { n, ops, use_default: data.len() % 2 == 0 }, &mut st, false, None);
-            fail_if(&st, "container");
+            contmap::run_all(&CCase { n, ops, use_default: data.len() % 2 == 0 }, st, false, None);
+            fail_if(st, "container");
         }
         2 => {
             let mut ops = vec![];
@@ -135,8 +174,8 @@ pub fn check_bytes(data: &[u8]) {
                 });
             }
             let fd: Vec<u16> = data.iter().rev().take(40).map(|b| (*b as u16) << 8).collect();
-            drops::run_all(&DCase { ops, final_drops: fd }, &mut st, false, None);
-            fail_if(&st, "drops");
+            drops::run_all(&DCase { ops, final_drops: fd }, st, false, None);
+            fail_if(st, "drops");
         }
         3 => {
             let g = graph(&mut r);
@@ -165,15 +204,21 @@ pub fn check_bytes(data: &[u8]) {
                 };
                 script.push(((t >> 4) as usize % 6, op));
             }
-            c20::run_all(&LCase { g, root, kind, cell, script }, &mut st, false, None);
-            fail_if(&st, "loop");
+            c20::run_all(&LCase { g, root, kind, cell, script }, st, false, None);
+            fail_if(st, "loop");
         }
         _ => {
             let g = graph(&mut r);
             let root = (r.u8() as usize % g.n) as Key;
             let target = (r.u8() as usize % (g.n + 1)) as Key;
             let bits = r.u16();
-            for prop in ["C04", "C05", "C06", "C07", "C08", "C09", "C10"] {
+            let all = ["C04", "C05", "C06", "C07", "C08", "C09", "C10"];
+            // one property per input (the filter's, or chosen by a byte): keeps an execution cheap
+            let chosen = match filter {
+                Some(f) if all.contains(&f) => f,
+                _ => all[(bits as usize >> 3) % all.len()],
+            };
+            for prop in [chosen] {
                 for directed in [true, false] {
                     if prop == "C08" && !directed {
                         continue;
@@ -194,17 +239,17 @@ pub fn check_bytes(data: &[u8]) {
                         for m in [MethSpec::ForEach, MethSpec::Filter(rej), MethSpec::None] {
                             let c = SCase { g: g.clone(), root, cell: cell.clone(), meth: m };
                             if directed {
-                                searchrun::run_case::<crate::flavour::Di>(prop, &c, &mut st, false);
-                                searchrun::run_case::<crate::flavour::SDi>(prop, &c, &mut st, false);
+                                searchrun::run_case::<crate::flavour::Di>(prop, &c, st, false);
+                                searchrun::run_case::<crate::flavour::SDi>(prop, &c, st, false);
                             } else {
-                                searchrun::run_case::<crate::flavour::Un>(prop, &c, &mut st, false);
-                                searchrun::run_case::<crate::flavour::SUn>(prop, &c, &mut st, false);
+                                searchrun::run_case::<crate::flavour::Un>(prop, &c, st, false);
+                                searchrun::run_case::<crate::flavour::SUn>(prop, &c, st, false);
                             }
                         }
                     }
                 }
             }
-            fail_if(&st, "search");
+            fail_if(st, "search");
         }
     }
 }
